@@ -16,6 +16,7 @@ mod fam_readn;
 mod fam_tlv;
 mod fam_sdeque;
 mod fam_sorted;
+mod fam_abt;
 mod util;
 
 use std::io::Write;
@@ -34,6 +35,7 @@ fn families() -> Vec<Box<dyn Family>> {
     v.push(Box::new(fam_hcobs::HcobsDecFamily));
     v.push(Box::new(fam_sdeque::SDequeFamily));
     v.push(Box::new(fam_sorted::SortedFamily));
+    v.push(Box::new(fam_abt::AbtFamily));
     v
 }
 
